@@ -101,4 +101,14 @@ def run_selftest():
             ll, why2 = layout.len_value(whole.results[lb.id])
             same = wl is not None and ll is not None and wl["lin"] == ll["lin"] and repr(wl["reps"]) == repr(ll["reps"])
             record("len() vs bytes written", name, bad, not same)
+    lb = body("fx_rules::Maps::len")
+    if lb is not None:
+        ll, why2 = layout.len_value(whole.results[lb.id])
+        for name, bad in [("good_write_sorted", False), ("bad_write_dedup", True)]:
+            w = body("fx_rules::Maps::" + name)
+            if w is None:
+                continue
+            wl, why = layout.written_length(whole.results[w.id], whole.results)
+            same = wl is not None and ll is not None and wl["lin"] == ll["lin"] and repr(wl["reps"]) == repr(ll["reps"])
+            record("len() vs bytes written (cloned source)", name, bad, not same)
     return all(r["ok"] for r in res), res
